@@ -72,6 +72,9 @@ pub struct Scenario {
     pub send: BTreeMap<u32, SendR>,
     pub get: BTreeMap<u32, GetR>,
     pub conc: Vec<COp>,
+    /// run one after the other once the concurrent operations are over, before the outcome is read: makes state
+    /// that is not visible through the API (the responder's set of reorged trackers, say) show in what follows
+    pub after: Vec<COp>,
 }
 
 /// the work a managed thread does, prepared on the main thread
@@ -279,11 +282,26 @@ fn run_schedule(sc: &Scenario, boot: &BootChain, prefix: &[usize]) -> RunResult 
     }
     let replies: Vec<String> = handles.into_iter().map(|h| h.join().unwrap_or_else(|_| "abort thread".into())).collect();
     teos::vsync::set_observer(None);
+    run_after(sc, &mut sys, &replies);
     let outcome = outcome_of(&mut sys, &replies);
     RunResult { outcome: Some(outcome), stuck: None, choices, points, edges }
 }
 
 fn install_panic_hook_thread() {}
+
+/// the scenario's epilogue: operations run one after the other on the state the concurrent part left
+fn run_after(sc: &Scenario, sys: &mut TowerSys, replies: &[String]) {
+    if sc.after.is_empty() || replies.iter().any(|r| r.starts_with("abort")) {
+        return;
+    }
+    // (preparing the concurrent chain operations already moved the harness's chain)
+    let mut h = sys.height();
+    let mut prev = sys.chain.last().map(|b| b.1.block_hash()).unwrap_or_else(genesis_hash);
+    for op in sc.after.iter() {
+        let job = prepare(sys, op, &mut h, &mut prev);
+        let _ = run_job(job, sys.api.clone(), sys.gatekeeper.clone(), sys.watcher.clone(), sys.responder.clone());
+    }
+}
 
 /// outcomes of every sequential order of the concurrent operations
 fn sequential_outcomes(sc: &Scenario, boot: &BootChain) -> BTreeMap<String, Vec<usize>> {
@@ -320,6 +338,7 @@ fn sequential_outcomes(sc: &Scenario, boot: &BootChain) -> BTreeMap<String, Vec<
             let job = jobs[*i].take().unwrap();
             replies[*i] = run_job(job, sys.api.clone(), sys.gatekeeper.clone(), sys.watcher.clone(), sys.responder.clone());
         }
+        run_after(sc, &mut sys, &replies);
         outs.insert(outcome_of(&mut sys, &replies), p);
     }
     outs
@@ -330,11 +349,11 @@ pub fn scenarios(thorough: bool) -> Vec<Scenario> {
     let enc = |loc: u32, class: u32| BlobSpec::Enc { dispute: loc, penalty: 1000 + loc * 10 + class, len: [260, 330, 2049][class as usize] };
     let mut v = vec![
         Scenario { name: "add-vs-block-with-dispute", cfg: (3, 50, 2), height: 100, setup: vec![COp::Reg(1)], send: node_ok.0.clone(), get: node_ok.1.clone(),
-                   conc: vec![COp::Add { user: 1, loc: 1, blob: enc(1, 0), tsd: 10 }, COp::Conn(vec![1])] },
+                   conc: vec![COp::Add { user: 1, loc: 1, blob: enc(1, 0), tsd: 10 }, COp::Conn(vec![1])], after: vec![] },
         Scenario { name: "same-appointment-twice", cfg: (3, 50, 2), height: 100, setup: vec![COp::Reg(1)], send: node_ok.0.clone(), get: node_ok.1.clone(),
-                   conc: vec![COp::Add { user: 1, loc: 1, blob: enc(1, 0), tsd: 10 }, COp::Add { user: 1, loc: 1, blob: enc(1, 0), tsd: 10 }] },
+                   conc: vec![COp::Add { user: 1, loc: 1, blob: enc(1, 0), tsd: 10 }, COp::Add { user: 1, loc: 1, blob: enc(1, 0), tsd: 10 }], after: vec![] },
         Scenario { name: "register-vs-add", cfg: (1, 50, 2), height: 100, setup: vec![COp::Reg(1)], send: node_ok.0.clone(), get: node_ok.1.clone(),
-                   conc: vec![COp::Reg(1), COp::Add { user: 1, loc: 1, blob: enc(1, 0), tsd: 10 }] },
+                   conc: vec![COp::Reg(1), COp::Add { user: 1, loc: 1, blob: enc(1, 0), tsd: 10 }], after: vec![] },
         Scenario { name: "add-vs-completing-block", cfg: (3, 400, 2), height: 100,
                    setup: {
                        let mut s = vec![COp::Reg(1), COp::Add { user: 1, loc: 1, blob: enc(1, 0), tsd: 10 }, COp::Conn(vec![1]), COp::Conn(vec![1010])];
@@ -342,7 +361,7 @@ pub fn scenarios(thorough: bool) -> Vec<Scenario> {
                        s
                    },
                    send: node_ok.0.clone(), get: node_ok.1.clone(),
-                   conc: vec![COp::Add { user: 1, loc: 2, blob: enc(2, 0), tsd: 10 }, COp::Conn(vec![])] },
+                   conc: vec![COp::Add { user: 1, loc: 2, blob: enc(2, 0), tsd: 10 }, COp::Conn(vec![])], after: vec![] },
         Scenario { name: "late-add-vs-rebroadcasting-block", cfg: (3, 400, 2), height: 100,
                    setup: {
                        let mut s = vec![COp::Reg(1), COp::Add { user: 1, loc: 1, blob: enc(1, 0), tsd: 10 }, COp::Conn(vec![1]), COp::Conn(vec![2])];
@@ -350,20 +369,25 @@ pub fn scenarios(thorough: bool) -> Vec<Scenario> {
                        s
                    },
                    send: node_ok.0.clone(), get: node_ok.1.clone(),
-                   conc: vec![COp::Add { user: 1, loc: 2, blob: enc(2, 0), tsd: 10 }, COp::Conn(vec![])] },
+                   conc: vec![COp::Add { user: 1, loc: 2, blob: enc(2, 0), tsd: 10 }, COp::Conn(vec![])], after: vec![] },
         Scenario { name: "add-vs-purging-block", cfg: (3, 1, 0), height: 100, setup: vec![COp::Reg(1)], send: node_ok.0.clone(), get: node_ok.1.clone(),
-                   conc: vec![COp::Add { user: 1, loc: 1, blob: enc(1, 0), tsd: 10 }, COp::Conn(vec![])] },
+                   conc: vec![COp::Add { user: 1, loc: 1, blob: enc(1, 0), tsd: 10 }, COp::Conn(vec![])], after: vec![] },
         Scenario { name: "get-vs-block-with-dispute", cfg: (3, 50, 2), height: 100,
                    setup: vec![COp::Reg(1), COp::Add { user: 1, loc: 1, blob: enc(1, 0), tsd: 10 }], send: node_ok.0.clone(), get: node_ok.1.clone(),
-                   conc: vec![COp::Get { user: 1, loc: 1 }, COp::Conn(vec![1])] },
+                   conc: vec![COp::Get { user: 1, loc: 1 }, COp::Conn(vec![1])], after: vec![] },
         Scenario { name: "update-vs-block-with-dispute", cfg: (5, 50, 2), height: 100,
                    setup: vec![COp::Reg(1), COp::Add { user: 1, loc: 1, blob: enc(1, 0), tsd: 10 }], send: node_ok.0.clone(), get: node_ok.1.clone(),
-                   conc: vec![COp::Add { user: 1, loc: 1, blob: enc(1, 2), tsd: 11 }, COp::Conn(vec![1])] },
+                   conc: vec![COp::Add { user: 1, loc: 1, blob: enc(1, 2), tsd: 11 }, COp::Conn(vec![1])], after: vec![] },
         Scenario { name: "late-add-vs-disconnect", cfg: (3, 50, 2), height: 100,
                    setup: vec![COp::Reg(1), COp::Conn(vec![1])], send: node_ok.0.clone(), get: node_ok.1.clone(),
-                   conc: vec![COp::Add { user: 1, loc: 1, blob: enc(1, 0), tsd: 10 }, COp::Disc] },
+                   conc: vec![COp::Add { user: 1, loc: 1, blob: enc(1, 0), tsd: 10 }, COp::Disc], after: vec![] },
+        // the penalty of the late appointment is confirmed in the very block being disconnected: whichever comes first,
+        // the next block must find the tracker unconfirmed or flagged as reorged (the epilogue connects that block)
+        Scenario { name: "late-add-confirmed-in-tip-vs-disconnect", cfg: (3, 50, 2), height: 100,
+                   setup: vec![COp::Reg(1), COp::Conn(vec![1]), COp::Conn(vec![1010])], send: node_ok.0.clone(), get: node_ok.1.clone(),
+                   conc: vec![COp::Add { user: 1, loc: 1, blob: enc(1, 0), tsd: 10 }, COp::Disc], after: vec![COp::Conn(vec![])] },
         Scenario { name: "subscription-info-vs-register", cfg: (3, 50, 2), height: 100, setup: vec![COp::Reg(1), COp::Add { user: 1, loc: 1, blob: enc(1, 0), tsd: 10 }], send: node_ok.0.clone(), get: node_ok.1.clone(),
-                   conc: vec![COp::Sub { user: 1 }, COp::Reg(1)] },
+                   conc: vec![COp::Sub { user: 1 }, COp::Reg(1)], after: vec![] },
         Scenario { name: "subscription-info-vs-completing-block", cfg: (3, 400, 2), height: 100,
                    setup: {
                        let mut s = vec![COp::Reg(1), COp::Add { user: 1, loc: 1, blob: enc(1, 0), tsd: 10 }, COp::Conn(vec![1]), COp::Conn(vec![1010])];
@@ -371,13 +395,13 @@ pub fn scenarios(thorough: bool) -> Vec<Scenario> {
                        s
                    },
                    send: node_ok.0.clone(), get: node_ok.1.clone(),
-                   conc: vec![COp::Sub { user: 1 }, COp::Conn(vec![])] },
+                   conc: vec![COp::Sub { user: 1 }, COp::Conn(vec![])], after: vec![] },
         Scenario { name: "two-users-same-locator", cfg: (3, 50, 2), height: 100, setup: vec![COp::Reg(1), COp::Reg(2)], send: node_ok.0.clone(), get: node_ok.1.clone(),
-                   conc: vec![COp::Add { user: 1, loc: 1, blob: enc(1, 0), tsd: 10 }, COp::Add { user: 2, loc: 1, blob: enc(1, 0), tsd: 10 }] },
+                   conc: vec![COp::Add { user: 1, loc: 1, blob: enc(1, 0), tsd: 10 }, COp::Add { user: 2, loc: 1, blob: enc(1, 0), tsd: 10 }], after: vec![] },
     ];
     if thorough {
         v.push(Scenario { name: "triple-add-add-block", cfg: (3, 50, 2), height: 100, setup: vec![COp::Reg(1), COp::Reg(2)], send: node_ok.0.clone(), get: node_ok.1.clone(),
-                          conc: vec![COp::Add { user: 1, loc: 1, blob: enc(1, 0), tsd: 10 }, COp::Add { user: 2, loc: 1, blob: enc(1, 1), tsd: 10 }, COp::Conn(vec![1])] });
+                          conc: vec![COp::Add { user: 1, loc: 1, blob: enc(1, 0), tsd: 10 }, COp::Add { user: 2, loc: 1, blob: enc(1, 1), tsd: 10 }, COp::Conn(vec![1])], after: vec![] });
         v.push(Scenario { name: "triple-reg-add-completing", cfg: (3, 400, 2), height: 100,
                           setup: {
                               let mut s = vec![COp::Reg(1), COp::Add { user: 1, loc: 1, blob: enc(1, 0), tsd: 10 }, COp::Conn(vec![1]), COp::Conn(vec![1010])];
@@ -385,7 +409,7 @@ pub fn scenarios(thorough: bool) -> Vec<Scenario> {
                               s
                           },
                           send: node_ok.0.clone(), get: node_ok.1.clone(),
-                          conc: vec![COp::Reg(1), COp::Add { user: 1, loc: 2, blob: enc(2, 0), tsd: 10 }, COp::Conn(vec![])] });
+                          conc: vec![COp::Reg(1), COp::Add { user: 1, loc: 2, blob: enc(2, 0), tsd: 10 }, COp::Conn(vec![])], after: vec![] });
     }
     v
 }
